@@ -153,7 +153,7 @@ func genC02(rng *rand.Rand, tier string) *C02Plan {
 		}
 		p.Ops = append(p.Ops, C02Op{Kind: "get2", Key: k}, C02Op{Kind: "advance", Secs: 10}, C02Op{Kind: "get2", Key: k})
 	}
-	kinds := []string{"put", "put", "put", "putnew", "get", "exists", "delete", "delete", "putmany", "purge", "setabs", "setrel", "maintain", "maintainall", "query", "query", "advance", "advance", "clearcache", "flush"}
+	kinds := []string{"put", "put", "put", "putnew", "reput", "get", "exists", "delete", "delete", "putmany", "purge", "setabs", "setrel", "maintain", "maintainall", "query", "query", "advance", "advance", "clearcache", "flush"}
 	for i := 0; i < n; i++ {
 		op := C02Op{Kind: kinds[rng.IntN(len(kinds))], Key: rng.IntN(len(keyPool)), Seed: rng.IntN(1 << 20), Wrapped: rng.IntN(2) == 0,
 			Secs: secsPool[rng.IntN(len(secsPool))], Prefix: rng.IntN(len(prefixPool))}
@@ -192,6 +192,8 @@ type c02State struct {
 	alwaysAbs  int64
 	writerDone chan struct{}
 	model2     map[string]string // second database: key -> nonce
+	lastObj    map[string]record.Record // the record object most recently handed to put/put-new for a key
+	lastObjM   map[string]*mrec         // ... and what it holds
 }
 
 func fieldsFromSeed(seed int) Fields {
@@ -425,8 +427,41 @@ func execC02(p *C02Plan, rc *simkit.RunCtx) {
 		now := nowUnix()
 		rc.H("%s", op.Kind)
 		switch op.Kind {
+		case "reput":
+			// the application keeps its record object, deletes the record and later stores the same object again
+			// as a new record
+			r := s.lastObj[key]
+			if r == nil {
+				break
+			}
+			if err := s.iface.Delete(full); err != nil && !errors.Is(err, database.ErrNotFound) {
+				rc.Fail("C02.delete-error", "delete failed", fmt.Sprintf("%s: %v", when, err))
+				return
+			}
+			if m := s.model[key]; m != nil && m.visible(now) {
+				m.Deleted = now
+			}
+			if err := s.iface.PutNew(r); err != nil {
+				rc.Fail("C02.put-error", "put-new of a record object that had been stored and deleted before failed"+s.cfgNote(), fmt.Sprintf("%s: %v", when, err))
+				return
+			}
+			old := s.lastObjM[key]
+			nm := &mrec{Nonce: old.Nonce, F: old.F, Created: nowUnix(), Modified: nowUnix()}
+			switch {
+			case s.alwaysAbs > 0:
+				nm.Expires = s.alwaysAbs
+			case p.AlwaysRel > 0:
+				nm.Expires = nowUnix() + int64(p.AlwaysRel)
+				nm.Fuzzy = true
+			}
+			s.model[key] = nm
+			rc.Probe("same-object-stored-again")
 		case "put", "putnew":
 			r, m := s.write(key, op.Seed, op.Wrapped)
+			if s.lastObj == nil {
+				s.lastObj, s.lastObjM = map[string]record.Record{}, map[string]*mrec{}
+			}
+			s.lastObj[key], s.lastObjM[key] = r, m
 			var err error
 			if op.Kind == "put" {
 				err = s.iface.Put(r)
